@@ -231,6 +231,26 @@ def run_check(prop, tier, seed, jobs):
     return status
 
 
+def replay_held_event(r, rec):
+    """Best effort: the decode whose event changed is repeated, the hostile scenes and variants of the same input with
+    other values are decoded while its events are held, and the held events are read again."""
+    from . import history
+    from . import trace as TR
+
+    data = bytes.fromhex(r["data"])
+    kw = dict(strict=True, cc=None, enc=None)
+    kw.update(r.get("args") or {})
+    for strict in (kw["strict"], not kw["strict"]):
+        TR.run(r["tname"], data, strict=strict, cc=kw["cc"], enc=kw["enc"])
+        for i in range(0, len(data)):
+            for b in (0xFF, 0x00, data[i] ^ 0x55):
+                TR.run(r["tname"], data[:i] + bytes([b]) + data[i + 1 :], strict=False, cc=kw["cc"], enc=kw["enc"])
+        history.aborted_scenes()
+    TR.recheck_recent()
+    for mu in TR.MUTATIONS[:3]:
+        rec.violation("event-changed-after-emission", "held-event", f"event #{mu['index']} of {mu['tname']} {mu['data'][:120]} was emitted as {mu['emitted']} and reads {mu['now']} {mu['when']}", r)
+
+
 def run_replay(path):
     with open(path) as f:
         case = json.load(f)
@@ -240,7 +260,10 @@ def run_replay(path):
     from .rec import Rec
 
     rec = Rec(prop, dict(name="replay"))
-    mod.replay(case["replay"], rec)
+    if isinstance(case["replay"], dict) and case["replay"].get("kind") == "held-event":
+        replay_held_event(case["replay"], rec)
+    else:
+        mod.replay(case["replay"], rec)
     if rec.viol_total:
         for v in rec.violations:
             print(f"VIOLATION property={prop} replay={path}")
